@@ -7,6 +7,7 @@ package interp
 import (
 	"fmt"
 	"strings"
+	"sync"
 )
 
 type Op uint8
@@ -71,13 +72,34 @@ type termKey struct {
 type TermTab struct {
 	tab   map[termKey]*Term
 	terms []*Term
-	vars  []*Term
+	vars  []*Term // this worker's variables, in creation order
 	True  *Term
 	False *Term
+	reg   *VarRegistry
 }
 
-func NewTermTab() *TermTab {
-	tt := &TermTab{tab: map[termKey]*Term{}}
+// VarRegistry gives every variable name one index shared by all workers, so
+// that a model found by one worker can be followed by another.
+type VarRegistry struct {
+	mu  sync.Mutex
+	idx map[string]uint64
+}
+
+func NewVarRegistry() *VarRegistry { return &VarRegistry{idx: map[string]uint64{}} }
+
+func (r *VarRegistry) index(name string) uint64 {
+	r.mu.Lock()
+	defer r.mu.Unlock()
+	if i, ok := r.idx[name]; ok {
+		return i
+	}
+	i := uint64(len(r.idx))
+	r.idx[name] = i
+	return i
+}
+
+func NewTermTab(reg *VarRegistry) *TermTab {
+	tt := &TermTab{tab: map[termKey]*Term{}, reg: reg}
 	tt.True = tt.mk(OpConst, 0, 1, "", nil, nil, nil)
 	tt.False = tt.mk(OpConst, 0, 0, "", nil, nil, nil)
 	return tt
@@ -131,7 +153,7 @@ func (tt *TermTab) Var(name string, w int) *Term {
 	if t, ok := tt.tab[k]; ok {
 		return t
 	}
-	t := &Term{tab: tt, id: int32(len(tt.terms)), op: OpVar, w: uint8(w), val: uint64(len(tt.vars)), name: name}
+	t := &Term{tab: tt, id: int32(len(tt.terms)), op: OpVar, w: uint8(w), val: tt.reg.index(name), name: name}
 	tt.terms = append(tt.terms, t)
 	tt.tab[k] = t
 	tt.vars = append(tt.vars, t)
